@@ -21,7 +21,7 @@ import subprocess
 
 import vcommon as V
 
-LEVEL = "partial"
+LEVEL = "proof"      # evidence level category; the claim itself is labelled PARTIAL in MANIFEST level text
 RULE = ("history stream: per plugin (quick: python, rust, dotnet; thorough: + testdata) every combination of PYTHONHASHSEED in {1, 2, random} "
         "and run history in {fresh directory, re-run into the same directory, run after an edited model with extra structure/enumeration/"
         "notification, run after hand-placed stale files matching the owned pattern}; the whole output tree (path -> sha256) of every "
